@@ -10,29 +10,30 @@ import (
 
 // Cfg is a complete, replayable hand configuration (deck order included)
 type Cfg struct {
-	N         int      `json:"n"`
-	Banks     []int64  `json:"banks"`
-	Ante      int64    `json:"ante"`
-	Dl        int64    `json:"dealer_blind"`
-	SB        int64    `json:"sb"`
-	BB        int64    `json:"bb"`
-	DeadSB    bool     `json:"dead_sb"`
-	Limit     string   `json:"limit"`
-	Short     bool     `json:"short_deck"`
-	Hole      int      `json:"hole"`
-	Req       int      `json:"required_hole"`
-	DealerIdx int      `json:"dealer_idx"`
-	Deck      []string `json:"deck"`
-	Personas  []int    `json:"personas,omitempty"`
-	Hostile   bool     `json:"hostile"`
-	PlainCtor bool     `json:"plain_constructor,omitempty"`  // the game is made with pokerface.NewGame (no game id) instead of the PokerFace factory
-	ViaHandle bool     `json:"via_handle,omitempty"`         // the players' actions go through the seat's Player handle (g.Player(i).Bet(x)) instead of the Game operation
-	Noise     bool     `json:"noise,omitempty"`              // in-place reloads and unexpected operations are mixed into the history
-	Burn      int      `json:"burn_count"`                   // Meta.BurnCount as configured (the engine always burns one card)
-	PosFlip   bool     `json:"positions_reversed,omitempty"` // list a seat's positions in reverse order
-	Reuse     int      `json:"reuse,omitempty"`              // 1: the game object played part of another hand before (ApplyOptions), 2: ... and got this hand via LoadState
-	Prev      *Cfg     `json:"previous_hand,omitempty"`
-	PrevSteps int      `json:"previous_hand_steps,omitempty"`
+	N          int      `json:"n"`
+	Banks      []int64  `json:"banks"`
+	Ante       int64    `json:"ante"`
+	Dl         int64    `json:"dealer_blind"`
+	SB         int64    `json:"sb"`
+	BB         int64    `json:"bb"`
+	DeadSB     bool     `json:"dead_sb"`
+	Limit      string   `json:"limit"`
+	Short      bool     `json:"short_deck"`
+	Hole       int      `json:"hole"`
+	Req        int      `json:"required_hole"`
+	DealerIdx  int      `json:"dealer_idx"`
+	Deck       []string `json:"deck"`
+	Personas   []int    `json:"personas,omitempty"`
+	Hostile    bool     `json:"hostile"`
+	Unlabelled bool     `json:"only_dealer_labelled,omitempty"` // no seat carries the sb / bb label (a button-blind or ante-only table set up with the dealer mark alone)
+	PlainCtor  bool     `json:"plain_constructor,omitempty"`    // the game is made with pokerface.NewGame (no game id) instead of the PokerFace factory
+	ViaHandle  bool     `json:"via_handle,omitempty"`           // the players' actions go through the seat's Player handle (g.Player(i).Bet(x)) instead of the Game operation
+	Noise      bool     `json:"noise,omitempty"`                // in-place reloads and unexpected operations are mixed into the history
+	Burn       int      `json:"burn_count"`                     // Meta.BurnCount as configured (the engine always burns one card)
+	PosFlip    bool     `json:"positions_reversed,omitempty"`   // list a seat's positions in reverse order
+	Reuse      int      `json:"reuse,omitempty"`                // 1: the game object played part of another hand before (ApplyOptions), 2: ... and got this hand via LoadState
+	Prev       *Cfg     `json:"previous_hand,omitempty"`
+	PrevSteps  int      `json:"previous_hand_steps,omitempty"`
 }
 
 func rnd63(r *rand.Rand, n int64) int64 {
@@ -64,6 +65,9 @@ func (c *Cfg) Positions(i int) []string {
 	pos := []string{}
 	if rel == 0 {
 		pos = append(pos, "dealer")
+	}
+	if c.Unlabelled {
+		return pos
 	}
 	if c.N == 2 {
 		if rel == 0 {
@@ -137,6 +141,7 @@ type GenOpts struct {
 	MinSeats     int
 	ShowdownBias bool // more callers, antes and >=5 seats
 	noReuse      bool
+	Unlabelled   bool // some tables carry the dealer mark only
 }
 
 func shuffledDeck(r *rand.Rand, short bool) []string {
@@ -293,6 +298,9 @@ func genCfg(r *rand.Rand, g GenOpts) *Cfg {
 	c.Noise = r.Intn(6) == 0
 	c.ViaHandle = r.Intn(5) == 0
 	c.PlainCtor = r.Intn(3) == 0
+	if g.Unlabelled && r.Intn(8) == 0 {
+		c.Unlabelled = true
+	}
 	// personas per seat
 	mix := r.Intn(8)
 	for i := 0; i < c.N; i++ {
